@@ -1140,7 +1140,8 @@ func evalC08Diff(d c08DiffCase) error {
 			return fmt.Errorf("merkle tree of %d transactions: leaf %d is %x, txid %x", d.N, i, tree[i], tx.Txid)
 		}
 	}
-	blk := &pb.InternalBlock{Transactions: txs, MerkleRoot: want}
+	// the block carries the tree of its body (its leaves were compared with the txids above), its root is the INDEPENDENT one
+	blk := &pb.InternalBlock{Transactions: txs, MerkleRoot: want, MerkleTree: tree}
 	if err := ledgerpkg.VerifyMerkle(blk); err != nil {
 		return fmt.Errorf("VerifyMerkle refuses the independent root of %d transactions: %v", d.N, err)
 	}
